@@ -175,6 +175,8 @@ func solverAvailable(bin string) bool {
 func runQuery(dir, name, query string, timeout time.Duration, wantModel bool, only []string) SolverResult {
 	ctx, cancel := context.WithTimeout(context.Background(), timeout+2*time.Second)
 	defer cancel()
+	// cvc5 reserves the str.* namespace of the strings theory even when it is not used
+	query = strings.ReplaceAll(query, "str.", "gstr.")
 	resCh := make(chan SolverResult, len(solverSpecs))
 	n := 0
 	var wg sync.WaitGroup
@@ -247,7 +249,9 @@ func runQuery(dir, name, query string, timeout time.Duration, wantModel bool, on
 		if r.Status == "error" {
 			errOut = append(errOut, r.Solver+": "+firstLines(r.Output, 3))
 		}
-		if last.Solver == "" || r.Status == "timeout" {
+		// report the most informative non-answer: timeout > unknown > error
+		rank := map[string]int{"timeout": 3, "unknown": 2, "error": 1}
+		if last.Solver == "" || rank[r.Status] > rank[last.Status] {
 			last = r
 		}
 	}
